@@ -52,6 +52,14 @@ def build(p):
         return np.array([x["v"] for x in items], dtype=dt)
     if k == "objs":
         return [build(x) for x in p["items"]]
+    if k == "bytes":
+        return bytes.fromhex(p["hex"]) if not p.get("mutable") else bytearray.fromhex(p["hex"])
+    if k == "str":
+        return p["v"]
+    if k == "list":
+        return [build(x) if isinstance(x, dict) else x for x in p["items"]]
+    if k == "default":
+        return get_cls(p["mod"], p["cls"])()
     if k == "struct":
         return get_cls(p["mod"], p["cls"])(**{a: build(v) for a, v in p["fields"]})
     if k == "union":
@@ -130,10 +138,14 @@ def job(j):
             res = "stored"
         except ValueError:
             res = "ValueError"
-        after = b"".join(bytes(x) for x in ns.serialize(o)).hex()
+        try:
+            after = b"".join(bytes(x) for x in ns.serialize(o)).hex()
+        except Exception as ex:  # noqa: the object no longer serializes
+            after = f"<serialize raises {type(ex).__name__}: {str(ex)[:120]}>"
         stored = getattr(o, j["attr"])
         n = len(stored) if hasattr(stored, "__len__") else None
-        return {"res": res, "before": before, "after": after, "len": n}
+        sel = [a for a in j.get("options", []) if getattr(o, a) is not None]
+        return {"res": res, "before": before, "after": after, "len": n, "selected": sel}
     if kind == "ctor":
         cls = get_cls(j["mod"], j["cls"])
         try:
